@@ -48,6 +48,10 @@ def cases(rng, tier):
         yield ("gate", {"gate": name, "params": []})
     for g_ in (rng.sample(OPEN, 3) if tier == "quick" else OPEN):
         yield ("kak", {"gate": "open:" + g_, "params": [gen.rand_angle(rng)] if g_ in FAMS else []})
+    # gates without any non-local content (tensor products of Haar-random one-qubit unitaries), and the Weyl-chamber corners
+    q_ = math.pi / 4
+    for corner in [(0, 0, 0), (0, 0, 0), (q_, 0, 0), (q_, q_, 0), (q_, q_, q_)]:
+        yield ("kak", {"gate": "weyl", "params": list(corner), "seeds": [rng.randrange(10 ** 6) for _ in range(4)]})
     for _ in range(reps * 2):
         r = rng.random()
         if r < 0.1:
